@@ -927,7 +927,11 @@ matrix_ass_subscr_noalias(matrix* self, PyObject* args, PyObject* val)
     }
     number n;
     if (PY_NUMBER(val) || (Matrix_Check(val) && MAT_LGT(val)==1)) {
-      convert_num[id](&n, val, (Matrix_Check(val) ? 0 : 1), 0);
+      if (convert_num[id](&n, val, (Matrix_Check(val) ? 0 : 1), 0)) {
+        if (!Matrix_Check(args)) { Py_DECREF(Il); }
+        if (decref_val) { Py_DECREF(val); }
+        return -1;
+      }
 
       for (i=0; i<MAT_LGT(Il); i++)
         write_num[id](self->buffer,CWRAP(MAT_BUFI(Il)[i],MAT_LGT(self)),&n,0);
@@ -942,7 +946,11 @@ matrix_ass_subscr_noalias(matrix* self, PyObject* args, PyObject* val)
         }
 
         for (i=0; i < MAT_LGT(Il); i++) {
-          convert_num[id](&n, val, 0, i);
+          if (convert_num[id](&n, val, 0, i)) {
+            if (!Matrix_Check(args)) { Py_DECREF(Il); }
+            if (decref_val) { Py_DECREF(val); }
+            return -1;
+          }
           write_num[id](self->buffer,
               CWRAP(MAT_BUFI(Il)[i], MAT_LGT(self)), &n, 0);
         }
@@ -1545,7 +1553,7 @@ matrix_add_generic(PyObject *self, PyObject *other, int inplace)
     {
     number n;
     if (!inplace) {
-      convert_num[id](&n,self,(Matrix_Check(self) ? 0 : 1),0);
+      if (convert_num[id](&n,self,(Matrix_Check(self) ? 0 : 1),0)) return NULL;
 
       matrix *ret = Matrix_NewFromMatrix((matrix *)other, id);
       if (!ret) return NULL;
@@ -1569,7 +1577,7 @@ matrix_add_generic(PyObject *self, PyObject *other, int inplace)
       return (PyObject *)ret;
     }
     else {
-      convert_num[id](&n,other,(Matrix_Check(other) ? 0 : 1),0);
+      if (convert_num[id](&n,other,(Matrix_Check(other) ? 0 : 1),0)) return NULL;
 
       switch (id) {
         case INT:     MAT_BUFI(self)[0] += n.i; break;
@@ -1589,7 +1597,7 @@ matrix_add_generic(PyObject *self, PyObject *other, int inplace)
       MAT_LGT(other)==1))
     {
     number n;
-    convert_num[id](&n,other,(Matrix_Check(other) ? 0 : 1),0);
+    if (convert_num[id](&n,other,(Matrix_Check(other) ? 0 : 1),0)) return NULL;
 
     if (!inplace) {
       matrix *ret = Matrix_NewFromMatrix((matrix *)self, id);
@@ -1699,7 +1707,7 @@ matrix_sub_generic(PyObject *self, PyObject *other, int inplace)
 
     number n;
     if (!inplace) {
-      convert_num[id](&n,self,(Matrix_Check(self) ? 0 : 1),0);
+      if (convert_num[id](&n,self,(Matrix_Check(self) ? 0 : 1),0)) return NULL;
 
       matrix *ret = Matrix_NewFromMatrix((matrix *)other, id);
       if (!ret) return NULL;
@@ -1723,7 +1731,7 @@ matrix_sub_generic(PyObject *self, PyObject *other, int inplace)
       return (PyObject *)ret;
     }
     else {
-      convert_num[id](&n,other,(Matrix_Check(other) ? 0 : 1),0);
+      if (convert_num[id](&n,other,(Matrix_Check(other) ? 0 : 1),0)) return NULL;
 
       switch (id) {
         case INT:     MAT_BUFI(self)[0] -= n.i; break;
@@ -1743,7 +1751,7 @@ matrix_sub_generic(PyObject *self, PyObject *other, int inplace)
   else if (PY_NUMBER(other) || (Matrix_Check(other) &&  MAT_LGT(other)==1))
     {
     number n;
-    convert_num[id](&n,other,(Matrix_Check(other) ? 0 : 1),0);
+    if (convert_num[id](&n,other,(Matrix_Check(other) ? 0 : 1),0)) return NULL;
 
     if (!inplace) {
       matrix *ret = Matrix_NewFromMatrix((matrix *)self, id);
@@ -1853,7 +1861,7 @@ matrix_mul_generic(PyObject *self, PyObject *other, int inplace)
     {
     number n;
     if (!inplace) {
-      convert_num[id](&n,self,(Matrix_Check(self) ? 0 : 1),0);
+      if (convert_num[id](&n,self,(Matrix_Check(self) ? 0 : 1),0)) return NULL;
 
       matrix *ret = Matrix_NewFromMatrix((matrix *)other, id);
       if (!ret) return NULL;
@@ -1863,7 +1871,7 @@ matrix_mul_generic(PyObject *self, PyObject *other, int inplace)
       return (PyObject *)ret;
     }
     else {
-      convert_num[id](&n,other,(Matrix_Check(other) ? 0 : 1),0);
+      if (convert_num[id](&n,other,(Matrix_Check(other) ? 0 : 1),0)) return NULL;
 
       int int1 = 1;
       scal[id](&int1, &n, MAT_BUF(self), &int1);
@@ -1877,7 +1885,7 @@ matrix_mul_generic(PyObject *self, PyObject *other, int inplace)
       MAT_LGT(other)==1))
     {
     number n;
-    convert_num[id](&n,other,(Matrix_Check(other) ? 0 : 1),0);
+    if (convert_num[id](&n,other,(Matrix_Check(other) ? 0 : 1),0)) return NULL;
 
     if (!inplace) {
       matrix *ret = Matrix_NewFromMatrix((matrix *)self, id);
@@ -1963,7 +1971,7 @@ matrix_div_generic(PyObject *self, PyObject *other, int inplace)
 #endif
 
   number n;
-  convert_num[id](&n,other,(Matrix_Check(other) ? 0 : 1),0);
+  if (convert_num[id](&n,other,(Matrix_Check(other) ? 0 : 1),0)) return NULL;
 
   if (!inplace) {
     matrix *ret = Matrix_NewFromMatrix((matrix *)self, id);
@@ -2014,7 +2022,7 @@ matrix_rem_generic(PyObject *self, PyObject *other, int inplace)
   if (id == COMPLEX) PY_ERR(PyExc_NotImplementedError, "complex modulo");
 
   number n;
-  convert_num[id](&n,other,(Matrix_Check(other) ? 0 : 1),0);
+  if (convert_num[id](&n,other,(Matrix_Check(other) ? 0 : 1),0)) return NULL;
 
   if (!inplace) {
     matrix *ret = Matrix_NewFromMatrix((matrix *)self, id);
